@@ -297,6 +297,9 @@ pub fn gen_valid_doc(rng: &mut Rng, ix: &SchemaIx, o: &OpOpts) -> Option<ExecDoc
 
 pub fn gen_doc_once(rng: &mut Rng, ix: &SchemaIx, o: &OpOpts) -> ExecDoc {
     let mut g = G { ix, o, frags: vec![], alias_n: 0, var_n: 0 };
+    // name styles: lower-case initials and underscores are legal names too (the generators capitalise some of them)
+    let frag_prefix = rng.s(&["F", "F", "F", "f", "frag_", "_F"]);
+    let op_prefix = rng.s(&["Op", "Op", "Op", "op", "my_op_", "_Op"]);
     // fragment pool
     if o.fragments {
         let composites: Vec<String> = ix.order.iter().filter(|t| ix.is_composite(t)).cloned().collect();
@@ -308,7 +311,7 @@ pub fn gen_doc_once(rng: &mut Rng, ix: &SchemaIx, o: &OpOpts) -> ExecDoc {
             let fdepth = rng.range(0, o.max_depth.saturating_sub(1));
             let sels = g.selset(&mut sc, rng, &cond, fdepth, limit);
             let dirs = g.exec_dirs(&mut sc, rng, "FRAGMENT_DEFINITION");
-            g.frags.push((FragDef { p: P::none(), name: nm(&format!("F{}", k + 1)), cond: nm(&cond), dirs, sels }, sc.vars));
+            g.frags.push((FragDef { p: P::none(), name: nm(&format!("{frag_prefix}{}", k + 1)), cond: nm(&cond), dirs, sels }, sc.vars));
         }
     }
     let mut defs = vec![];
@@ -341,7 +344,7 @@ pub fn gen_doc_once(rng: &mut Rng, ix: &SchemaIx, o: &OpOpts) -> ExecDoc {
             OpKind::Mutation => "MUTATION",
             OpKind::Subscription => "SUBSCRIPTION",
         });
-        let name = if nops == 1 && rng.chance(1, 4) { None } else { Some(nm(&format!("Op{}", k + 1))) };
+        let name = if nops == 1 && rng.chance(1, 4) { None } else { Some(nm(&format!("{op_prefix}{}", k + 1))) };
         let mut op = OpDef { p: P::none(), kind, name, vars: sc.vars, vars_p: P::none(), dirs, sels, shorthand: false };
         // keep only the variables that are really used (transitively through fragments)
         let tmp_doc = ExecDoc { defs: g.frags.iter().map(|(f, _)| ExecDef::Frag(f.clone())).chain(std::iter::once(ExecDef::Op(op.clone()))).collect() };
